@@ -86,6 +86,30 @@ def reg_nonterminals(G):
     return S
 
 
+def seg_nonterminals(G):
+    """nonterminals that only choose a segment register or nothing: the register choice itself (every alternative one
+    of cs/ds/es/ss) and any wrapper around it built from terminals, e.g. an optional `seg_reg ":"` prefix"""
+    segs = {'"cs"', '"ds"', '"es"', '"ss"'}
+    base = set()
+    for nt in G.g["nonterminals"]:
+        if nt["productions"] and all(len(p["symbols"]) == 1 and p["symbols"][0]["t"] == "term" and p["symbols"][0]["name"] in segs
+                                     for p in nt["productions"]):
+            base.add(nt["name"])
+    S = set(base)
+    changed = True
+    while changed:
+        changed = False
+        for nt in G.g["nonterminals"]:
+            n = nt["name"]
+            if n in S or not nt["productions"]:
+                continue
+            if all(all(x["t"] == "term" or x["name"] in S for x in p["symbols"]) for p in nt["productions"]) and \
+                    any(x["t"] == "nt" and x["name"] in S for p in nt["productions"] for x in p["symbols"]):
+                S.add(n)
+                changed = True
+    return S
+
+
 NUM_NTS = ("u_word_num", "s_word_num", "u_byte_num", "s_byte_num")
 
 
@@ -104,10 +128,13 @@ def run(ctx, chk):
     chk.rule("C04.R5", "word operands are the cells m, m+1 (mod 2^20), low byte first", floor=40)
     chk.rule("C04.R6", "LEA: one register written, no memory/flag touched, value is the 16-bit offset", floor=2)
     chk.rule("C04.R7", "data labels resolve to (16*DS + offset) mod 2^20", floor=2)
-    chk.rule("C04.R8", "no abort site in the addressing actions", floor=10)
+    # every addressing alternative contains at least one checked arithmetic site, so that is the least that must be seen
+    chk.rule("C04.R8", "no abort site in the addressing actions", floor=max(3, len(G.productions("memory_addr"))))
 
     segs = seg_choice(G)
     REG_NTS = reg_nonterminals(G)
+    SEG_NTS = seg_nonterminals(G)
+    chk.extra["segment_nonterminals"] = sorted(SEG_NTS)
     chk.extra["register_nonterminals"] = sorted(REG_NTS)
     variants = 0
     for k, p in enumerate(G.productions("memory_addr")):
@@ -120,8 +147,12 @@ def run(ctx, chk):
         for i, s in enumerate(syms):
             if s["t"] != "nt":
                 continue
-            if s["name"] == "seg_reg":
-                per_sym.append([(i, "seg", {(i,): kk}, [nm]) for kk, nm in segs])
+            if s["name"] in SEG_NTS:
+                opts = []
+                for ch, terms in expand_choices(G, s["name"]):
+                    nm = [t for t in terms if t in ("cs", "ds", "es", "ss")]
+                    opts.append((i, "seg", {(i,) + pth: kk for pth, kk in ch.items()}, [nm[0] if nm else None]))
+                per_sym.append(opts)
             elif s["name"] in REG_NTS:
                 opts = []
                 for ch, regs in expand_choices(G, s["name"]):
